@@ -28,6 +28,10 @@ def series_list(s):
 # --------------------------------------------------------------------------------------------------------- C04
 def c04(obj, kind, case, cfg, rec, X=None, tag=''):
     X = case['X'] if X is None else X
+    if tag == '':
+        # a value seen at fit gets the label of its group whatever the OTHER columns of the frame hold (e.g. a value another feature never saw)
+        for okp, msg, B in probe_shared(obj, kind, X):
+            rec('C04:transform#post.label_of_the_group_containing_the_value', okp, msg, dict(feature=B, shared_vocabulary=True))
     try:
         out = obj.transform(X)
     except Exception as e:
